@@ -357,6 +357,16 @@ func (x *Unit) externalCall(st *State, pc *preparedCall) []Term {
 		if pc.recv != nil && pc.recv.Sort == SIface {
 			x.derefIface(st, *pc.recv, pc.node)
 		}
+		if full == "(reflect.Value).IsNil" && x.safetyOn() {
+			// reflect precondition: IsNil panics unless the kind is chan, func, interface, map, pointer, slice or unsafe pointer
+			k := x.U.Fun(q("ext:(reflect.Value).Kind"), []*Sort{pc.recv.Sort}, SInt)
+			kind := "(" + k + " " + pc.recv.S + ")"
+			var alts []Term
+			for _, kv := range []int{18, 19, 20, 21, 22, 23, 26} { // reflect.Chan, Func, Interface, Map, Pointer, Slice, UnsafePointer
+				alts = append(alts, T(fmt.Sprintf("(= %s %d)", kind, kv), SBool))
+			}
+			x.oblige(st, "safety", x.safetyLabel("reflect-IsNil-kind"), x.safetyTags(), Or(alts...), "reflect.Value.IsNil is only called on nillable kinds", pc.node)
+		}
 		var rets []Term
 		for i := 0; i < nres; i++ {
 			rs := x.U.SortOf(resT(i))
@@ -377,6 +387,19 @@ func (x *Unit) externalCall(st *State, pc *preparedCall) []Term {
 				x.typeInv(r)
 			}
 			rets = append(rets, r)
+		}
+		// facts about a few reflect observers (part of the trusted external model)
+		switch full {
+		case "reflect.TypeOf":
+			x.assume(st, Implies(Not(x.U.IsNilIface(targs[0])), Not(x.U.IsNilIface(rets[0]))))
+		case "(reflect.Type).Field":
+			if rets[0].Sort.Kind == KStruct && rets[0].Sort.fieldIndex("Type") >= 0 {
+				x.assume(st, Not(x.U.IsNilIface(x.U.StructGet(rets[0], "Type"))))
+			}
+		case "(reflect.Type).Elem", "reflect.PointerTo", "(reflect.Value).Type":
+			if rets[0].Sort == SIface {
+				x.assume(st, Not(x.U.IsNilIface(rets[0])))
+			}
 		}
 		return rets
 	}
